@@ -17,7 +17,7 @@ use grin_core::core::{
 	Block, BlockHeader, CompactBlock, ShortId, UntrustedBlock, UntrustedBlockHeader, UntrustedCompactBlock,
 };
 use grin_core::pow::{Proof, ProofOfWork};
-use grin_core::ser::{self, BufReader, DeserializationMode, PMMRIndexHashable, PMMRable, ProtocolVersion, Readable, Writeable};
+use grin_core::ser::{self, BufReader, DeserializationMode, PMMRIndexHashable, PMMRable, ProtocolVersion, Readable};
 use grin_keychain::BlindingFactor;
 use grin_p2p::msg::{
 	self, BanReason, GetPeerAddrs, Hand, Locator, Message, MsgHeaderWrapper, OutputBitmapSegmentResponse,
@@ -28,6 +28,7 @@ use grin_p2p::types::{AttachmentMeta, PeerAddr};
 use grin_p2p::verif_export::Codec;
 use grin_util::secp::pedersen::{Commitment, RangeProof};
 use grin_util::secp::Signature;
+use grin_util::ToHex;
 use std::collections::HashSet;
 use std::io::Write;
 use std::net::{Shutdown, TcpListener, TcpStream};
@@ -448,7 +449,7 @@ fn post_tx(tx: Transaction, _: &CaseIn) -> bool {
 		tx.inputs().len() + tx.outputs().len() + tx.kernels().len() > 0
 	});
 	st(S_TX_FEES, || {
-		let _ = (tx.fee(), tx.shifted_fee(), tx.accept_fee(), tx.fee_rate(), tx.weight(), tx.overage(), tx.fee_shift());
+		let _ = (tx.fee(), tx.shifted_fee(), tx.accept_fee(), tx.fee_rate(), tx.weight(), tx.overage(), tx.body.fee_shift());
 		tx.aggregate_fee_fields().is_ok()
 	});
 	inputs_conv(tx.inputs());
